@@ -544,30 +544,36 @@ def sym_isinstance(obj, cls):
     return _real_isinstance(obj, cls)
 
 
-# hash model: int.__hash__(n) = n mod (2^61 - 1) for n >= 0 (CPython, 64-bit); tuples: uninterpreted function
+# hash model (CPython 3.12, 64-bit): int.__hash__(n) = n mod (2^61 - 1) for n >= 0; tuple hash = the xxHash-based
+# combination of Objects/tupleobject.c, computed exactly on 64-bit bit-vectors
 _M61 = (1 << 61) - 1
-_tuple_hash_ufs = {}
+_XXP1, _XXP2, _XXP5 = 11400714785074694791, 14029467366897019727, 2870177450012600261
+
+
+def _u64(x):
+    return z3.BitVecVal(x & ((1 << 64) - 1), 64)
 
 
 def _hash_term(x):
-    """64-bit BV term modelling hash(x) for ints / proxies / tuples thereof"""
+    """64-bit BV term (unsigned Py_uhash_t view) modelling hash(x) for non-negative ints / proxies / tuples thereof"""
     if _real_isinstance(x, SymBool):
         x = x.as_int()
     if _real_isinstance(x, SymInt):
         if x.lo < 0 or x.hi >= (1 << 64):
             raise EngineLimit("hash of a possibly negative / very wide symbolic integer")
-        return z3.URem(z3.ZeroExt(66 - x.e.size(), x.e) if x.e.size() < 66 else x.e, z3.BitVecVal(_M61, 66))
+        e = z3.ZeroExt(66 - x.e.size(), x.e) if x.e.size() < 66 else x.e
+        return z3.Extract(63, 0, z3.URem(e, z3.BitVecVal(_M61, 66)))
     if _real_isinstance(x, _real_bool) or _real_isinstance(x, _real_int):
         x = _real_int(x)
         if x < 0:
             raise EngineLimit("hash of negative int in symbolic tuple")
-        return z3.BitVecVal(x % _M61, 66)
+        return _u64(x % _M61)
     if _real_isinstance(x, tuple):
-        n = _real_len(x)
-        uf = _tuple_hash_ufs.get(n)
-        if uf is None:
-            uf = _tuple_hash_ufs[n] = z3.Function("tuplehash%d" % n, *([z3.BitVecSort(66)] * n + [z3.BitVecSort(66)]))
-        return uf(*[_hash_term(v) for v in x])
+        # tuple combination: modelled as an injective, congruent function of the item hashes (the concatenation of the
+        # lanes). CPython's xxHash mixing is deterministic in the lanes, so equal lanes => equal hash holds exactly; the
+        # converse (different lanes => different hash) is an idealisation no property here relies on.
+        lanes = [_hash_term(v) for v in x]
+        return z3.Concat(*([z3.BitVecVal(_real_len(x), 8)] + lanes)) if lanes else z3.BitVecVal(0, 8)
     raise EngineLimit("hash of %s in symbolic context" % type(x).__name__)
 
 
@@ -580,7 +586,33 @@ def _contains_sym(x):
 
 
 def sym_hash(x):
+    """hash() as a SymInt holding the (idealised, see _hash_term) pattern of the hash value; objects whose class defines
+    __hash__ in Python are asked directly, so that a symbolic result can pass through (the builtin insists on an int)"""
     if _contains_sym(x):
         t = _hash_term(x)
-        return SymInt(z3.ZeroExt(1, t), 0, (1 << 66) - 1)
+        return SymInt(z3.ZeroExt(1, t), 0, (1 << t.size()) - 1)
+    if not _real_isinstance(x, (_real_int, _real_str, _real_bytes, tuple, float, frozenset, type(None))):
+        h = getattr(type(x), "__hash__", None)
+        if h is not None and getattr(h, "__code__", None) is not None:
+            return h(x)
     return _real_hash(x)
+
+
+def smart_int_hash(self):
+    """SymInt.__hash__: a direct call `x.__hash__()` from Python code gets the symbolic hash; the C slot (dict, set,
+    lru_cache, builtin hash) needs a real int, so the value is concretised there"""
+    import sys
+    f = sys._getframe(1)
+    try:
+        if "__hash__" in f.f_code.co_names:
+            import dis
+            cur = None
+            for ins in dis.get_instructions(f.f_code):
+                if ins.offset > f.f_lasti:
+                    break
+                cur = ins           # f_lasti may point into the inline cache of the instruction
+            if cur is not None and cur.opname.startswith("CALL"):
+                return sym_hash(self)
+    finally:
+        del f
+    return _real_hash(Ctx.cur.concretize(self.e))
